@@ -6,6 +6,7 @@ import (
 	"io"
 	"runtime"
 	"strings"
+	"sync"
 	"sync/atomic"
 	"time"
 	"unicode/utf8"
@@ -337,6 +338,7 @@ func c06Exec(c *core.Ctx, cs c06Case) {
 // the happens-before based detector); a race report kills the worker and is
 // attributed by the driver.  Results must also agree between repetitions.
 func c06RacePhase(c *core.Ctx, cs c06Case, key string) {
+	defer c06Parallel(c, cs, key)
 	reps := c.Pick(60, 400)
 	ref := ""
 	for _, procs := range []int{16, 2} {
@@ -375,6 +377,74 @@ func c06RacePhase(c *core.Ctx, cs c06Case, key string) {
 			}
 		}
 		runtime.GOMAXPROCS(old)
+	}
+}
+
+// c06Once is one call on private arguments (own reader, own ExecEnv) and
+// everything the caller can see of it, as one string.
+func c06Once(cs c06Case) string {
+	if cs.Arith {
+		env := c11Env(cs.Store)
+		var n int
+		var err error
+		var fields []string
+		if cs.Via == "expand" {
+			cmd, _, perr := parser.ParseCommand("c06", "x $(("+cs.Src+"))")
+			if perr != nil {
+				return "parse: " + perr.Error()
+			}
+			fields, err = env.Expand(cmd.(*ast.Cmd).Expr.(*ast.SimpleCmd).Args[1], 0)
+		} else {
+			n, err = env.Eval(cs.Src)
+		}
+		r := fmt.Sprintf("fields=%q err=%v store=%s", fields, err, storeStr(pickVars(c11Snapshot(env))))
+		if err == nil {
+			r += fmt.Sprintf(" n=%d", n)
+		}
+		return r
+	}
+	sc := &trackScanner{rs: []rune(cs.Src), failAt: cs.Fault, err: fmt.Errorf("injected read failure at %d", cs.Fault)}
+	cmds, comments, err := parser.ParseCommands(nil, "c06", sc)
+	at := sc.pos.Load()
+	es := "<nil>"
+	if err != nil {
+		es = fmt.Sprintf("%T:%v", err, err)
+	}
+	return skel.Dump(cmds) + "|" + fmt.Sprint(commentTextsOf(comments)) + "|" + es + fmt.Sprintf("|consumed=%d", at)
+}
+
+// c06Parallel: the same call made by several goroutines at once, each on its
+// own arguments.  The calls share nothing the caller gave them, so each must
+// return what the call returns when it runs alone; state kept at package level
+// by the lexer or parser shows as a wrong result here and as a race report
+// (hook-free workers run under the race detector).
+func c06Parallel(c *core.Ctx, cs c06Case, key string) {
+	ref := c06Once(cs)
+	const P = 4
+	reps := c.Pick(12, 60)
+	var wg sync.WaitGroup
+	var bad [P]string
+	var n [P]int
+	for g := 0; g < P; g++ {
+		wg.Add(1)
+		go func(g int) {
+			defer wg.Done()
+			for k := 0; k < reps; k++ {
+				n[g]++
+				if got := c06Once(cs); got != ref && bad[g] == "" {
+					bad[g] = got
+				}
+			}
+		}(g)
+	}
+	wg.Wait()
+	for g := 0; g < P; g++ {
+		c.Eval(n[g])
+		c.Count("parallel-calls(hooks off)", n[g])
+		if bad[g] != "" {
+			c.Violation("result-depends-on-concurrent-calls", key, ref, bad[g], fmt.Sprintf("%d goroutines make the same call on private arguments; %s", P, firstDiff(ref, bad[g])))
+			return
+		}
 	}
 }
 
